@@ -66,6 +66,14 @@ func (r *Reader) readIloc(b *box) (err error) {
 
 	for i := 0; i < len(buf); {
 		var ent ilocEntry
+		// fixed part of an entry: item id, (construction method), data reference index, base offset, extent count
+		need := 2 + 2 + int(ilb.baseOffsetSize) + 2
+		if b.flags.version() > 0 {
+			need += 2
+		}
+		if i+need > len(buf) {
+			break
+		}
 		ent.id = itemID(bmffEndian.Uint16(buf[i : i+2]))
 		i += 2
 
@@ -88,6 +96,9 @@ func (r *Reader) readIloc(b *box) (err error) {
 		for j := 0; j < int(ent.count); j++ {
 			var ol offsetLength
 			if j == 0 {
+				if i+int(ilb.offsetSize)+int(ilb.lengthSize) > len(buf) {
+					return b.close()
+				}
 				ol.offset = uintN(ilb.offsetSize, buf[i:i+int(ilb.offsetSize)])
 				i += int(ilb.offsetSize)
 				ol.length = uintN(ilb.lengthSize, buf[i:i+int(ilb.lengthSize)])
